@@ -55,6 +55,22 @@ func copyTree(src, dst string) {
 	})
 }
 
+// flushProbe: what is done to a recovered torn-flush image - one more acknowledged statement
+// (all rows of one table deleted: new LSNs on its pages), then a second crash and recovery.
+func (d *rdb) flushProbe(j int) []string {
+	if len(d.tables) == 0 {
+		return nil
+	}
+	return []string{"DELETE FROM " + d.tables[j%len(d.tables)], "!again"}
+}
+
+func probeField(probe []string) string {
+	if len(probe) == 0 {
+		return ""
+	}
+	return " probe=" + hxs(probe[0])
+}
+
 // recoverWithImages crashes, runs the real start-up recovery in a child process that leaves a crash
 // image before every page write and header write of the flush that ends recovery, reopens the
 // database, and then recovers and inspects each of those images: a second crash inside recovery.
@@ -109,8 +125,9 @@ func (d *rdb) recoverWithImages() string {
 			continue
 		}
 		seen[im.j] = true
-		d.cfg.tr.Op("fimage %d recovery alloc=%d order=%s", im.j, alloc, strings.Join(order, ","))
-		d.guard(func() string { d.inspectImage(im.dir, nil); return "" })
+		probe := d.flushProbe(im.j)
+		d.cfg.tr.Op("fimage %d recovery alloc=%d order=%s%s", im.j, alloc, strings.Join(order, ","), probeField(probe))
+		d.guard(func() string { d.inspectImage(im.dir, probe); return "" })
 		d.cfg.st.Inc("flush-crash-images")
 		d.cfg.st.Inc(fmt.Sprintf("flush-crash-images.recovery.alloc%d", alloc))
 	}
@@ -137,42 +154,89 @@ func fileLen(path string) int64 {
 	return st.Size()
 }
 
-// inspectImage recovers the image with the real InitStorage (child process), then reports every
-// table, optionally runs probe statements on the recovered database, and reports again.
+// inspectImage recovers the image with the real InitStorage, then reports every table, optionally
+// runs probe statements on the recovered database (and, after the marker "!again", a second crash
+// and recovery), and reports again.  All of it happens in a child process: a statement that runs
+// away on a damaged image (unbounded recursion is a fatal error of the Go runtime, an endless loop
+// cannot be interrupted) takes only the child with it, and is reported as "panic" / "hang".
 func (d *rdb) inspectImage(dir string, probes []string) {
-	cwd, _ := os.Getwd()
-	os.Chdir(dir)
-	defer func() {
-		os.Chdir(cwd)
-		os.RemoveAll(dir)
-	}()
+	defer os.RemoveAll(dir)
+	outf := filepath.Join(dir, "inspect.txt")
+	tabs := "-"
+	if len(d.tables) > 0 {
+		tabs = strings.Join(hexAll(d.tables), ",")
+	}
+	args := append([]string{"inspect", d.name, outf, tabs}, hexAll(probes)...)
+	res := runChildIn(dir, 9*time.Second, args...)
+	if b, err := os.ReadFile(outf); err == nil {
+		for _, l := range strings.Split(strings.TrimRight(string(b), "\n"), "\n") {
+			if strings.HasPrefix(l, "> ") {
+				d.out(l[2:])
+			}
+		}
+	}
+	switch res {
+	case "ok":
+	case "hang":
+		d.out("hang")
+	default:
+		d.out("panic")
+	}
+	d.out("end")
+}
+
+// inspectChild is the body of the child process started by inspectImage (cwd = the image).
+func inspectChild(name, outf string, tables, probes []string) {
+	cfg := &config{tr: hx.NewTrace(outf), st: hx.NewStats()}
+	cfg.tr.FlushOps = true
+	d := &rdb{cfg: cfg, name: name, tables: tables}
 	res := runInitStorage()
 	d.out("recover " + res)
 	if res != "ok" && res != "initerr" {
-		d.out("end")
+		cfg.tr.Close()
 		return
 	}
-	img := &rdb{cfg: d.cfg, name: d.name, tables: d.tables}
+	img := &rdb{cfg: cfg, name: name, tables: tables}
 	pm := hx.Catch(func() {
-		rs, err := storage.VerifOpenRelation(d.name, false, 0)
+		rs, err := storage.VerifOpenRelation(name, false, 0)
 		if err != nil {
 			d.out("openerr")
 			return
 		}
 		img.rs = rs
 		img.reportTables()
+		again := false
 		for _, q := range probes {
+			if q == "!again" {
+				again = true
+				continue
+			}
 			d.out("probe " + hxs(q))
 			out := img.execStmt(q)
 			d.out(out)
 			img.reportTables()
 		}
 		rs.VerifAbandon()
+		if again {
+			// a second crash (the cache is dropped, the log kept) and a second recovery
+			res := runInitStorage()
+			d.out("again " + res)
+			if res == "ok" || res == "initerr" {
+				rs2, err := storage.VerifOpenRelation(name, false, 0)
+				if err != nil {
+					d.out("openerr")
+					return
+				}
+				img.rs = rs2
+				img.reportTables()
+				rs2.VerifAbandon()
+			}
+		}
 	})
 	if pm != "" {
 		d.out("panic")
 	}
-	d.out("end")
+	cfg.tr.Close()
 }
 
 // reportTables writes "table <hex> <rows...>" for every table (output lines, not ops).
